@@ -126,7 +126,10 @@ bi383_next(bitint_iter_t *restrict iter, const bitint383_t *bi)
 		} else {
 			for (; !(tmp & 0b1U); ip++, tmp >>= 1U);
 			res = ij * POS_BITZ + ip;
-			*iter = res + 1U;
+			if ((*iter = res + 1U) >= countof(bi->pos) * POS_BITZ) {
+				/* that was the topmost bit, negatives next */
+				*iter = countof(bi->pos) * POS_BITZ + 1U;
+			}
 		}
 	} else if (*iter > countof(bi->pos) * POS_BITZ &&
 		   *iter < countof(bi->neg) * NEG_BITZ +
@@ -257,7 +260,10 @@ bi447_next(bitint_iter_t *restrict iter, const bitint447_t *bi)
 		} else {
 			for (; !(tmp & 0b1U); ip++, tmp >>= 1U);
 			res = ij * POS_BITZ + ip;
-			*iter = res + 1U;
+			if ((*iter = res + 1U) >= countof(bi->pos) * POS_BITZ) {
+				/* that was the topmost bit, negatives next */
+				*iter = countof(bi->pos) * POS_BITZ + 1U;
+			}
 		}
 	} else if (*iter > countof(bi->pos) * POS_BITZ &&
 		   *iter < countof(bi->pos) * NEG_BITZ +
